@@ -11,6 +11,7 @@ CONSTANTS
   DecoAlphabet <- MC_RetryDeco
   BigChoices <- MC_SmallTol
   LaggedRecordedAtSetup = FALSE
+  Hyp_NoCap = FALSE
 INVARIANT TypeOK
 INVARIANT C02_SolvedOnlyIfConverged
 INVARIANT C02_SolvedOnlyAfterSweep
